@@ -47,6 +47,7 @@ def main():
     chk.outside += F.OUTSIDE
     chk.stubs += F.STUBS
     chk.require_goals(["open-conflict-resolved"])
+    F.f16_witness(chk, known)
     return chk.finish()
 
 
